@@ -8,7 +8,16 @@ NumPy/einsum, and its hand-derived Gateaux derivative.  Oracles for `J, rhs = No
   * J == d F / d x: dense 4th-order central differences of F (N <= 150, rtol 1e-6 of max|J|);
   * J == `BilinearForm` of the hand-linearised density (rtol 1e-10);
   * integrands linear in the unknown: J is the ordinarily assembled matrix A at every x and rhs == b - A x;
-  * x=None is x=0; `elemental()` carries the same numbers.
+  * x=None is x=0; `elemental()` carries the same numbers;
+  * the constructor / call spelling rotates with the case index (NonlinearForm(f), hessian=False, @NonlinearForm,
+    @NonlinearForm(hessian=...), NonlinearForm(form_object), x positional / float32 / int64 / strided / read-only: the
+    linearisation point is rounded so that every spelling carries exactly the reference values);
+  * quick tier: the same form object is called once more at the second point (elemental()) against -F(x2) and the
+    hand-linearised matrix at x2 (a memo of the interpolated point or of the linearisation returns the first answer);
+  * keyword parameters (float, DOF array, pre-interpolated DiscreteField, 2-D array, tuples on composite bases) on
+    scalar / vector / composite / facet layouts; energies on H^2 elements, facet bases and vector x scalar layouts;
+  * CompositeBasis (b0 * b1) as the basis: all oracles on it, and equality with the ElementComposite result under
+    np.concatenate(split_indices()).
 Part B (helpers).  Every public function of skfem.helpers and skfem.autodiff.helpers on random 2x2 / 3x3
 tensors (0-3 trailing axes, contiguous and strided) against numpy.linalg / elementary NumPy definitions, JAX
 variant == NumPy variant for every shared name, and the field helpers (grad, div, curl, sym_grad, d, dd, ...)
@@ -56,13 +65,14 @@ RULE = ("Part A: random small meshes of every cell kind (renumbered, locally per
         "energy-form (hessian=True) spellings.  Distinct key = (element layout, term names, mesh class); a case "
         "is non-trivial iff the Jacobians at two linearisation points differ (really nonlinear), linear-clause "
         "cases iff A != 0.  Part B: every public helper of both modules x n in {2,3} x trailing shapes "
-        "(), (k,), (nel,nq), (a,b,c) x memory layouts; key = (module, helper, n, #trailing axes)")
+        "(), (k,), (nel,nq), (a,b,c) x memory layouts x data types (complex128, float32, int64, field objects); key = "
+        "(module, helper, n, #trailing axes)")
 ASSUMPTIONS = [
     "ordinary LinearForm/BilinearForm assembly, Basis.interpolate and quadrature are trusted here (they are the "
     "subject of C01/C02); both sides of every comparison use the same basis object and quadrature",
     "the finite-difference oracle sees errors above 1e-6 of max|J|; smaller ones are left to the hand-linearised "
     "oracle (1e-10)",
-    "MortarFacetBasis (two-basis forms as in docs/examples/ex51.py) and complex dtype are not exercised",
+    "MortarFacetBasis is not exercised (CompositeBasis as in docs/examples/ex51.py is: family nl-compositebasis)",
 ]
 TRACK = ["skfem.autodiff:NonlinearForm._assemble", "skfem.autodiff:NonlinearForm.assemble",
          "skfem.autodiff:NonlinearForm.elemental",
@@ -72,7 +82,7 @@ TRACK = ["skfem.autodiff:NonlinearForm._assemble", "skfem.autodiff:NonlinearForm
          "skfem.autodiff.helpers:div", "skfem.autodiff.helpers:sym_grad", "skfem.autodiff.helpers:eye",
          "skfem.helpers:det", "skfem.helpers:inv", "skfem.helpers:cross", "skfem.helpers:curl",
          "skfem.helpers:div", "skfem.helpers:identity", "skfem.helpers:inner", "skfem.helpers:mul"]
-REQUIRED_MONITORS = ["rhs-is-minus-residual", "jacobian-vs-finite-differences", "jacobian-vs-hand-linearised",
+REQUIRED_MONITORS = ["compositebasis-equals-composite-element", "rhs-is-minus-residual", "jacobian-vs-finite-differences", "jacobian-vs-hand-linearised",
                      "linear-reduces-to-ordinary-assembly", "x-none-is-zero", "elemental-equals-assemble",
                      "output-structure", "helper-np-definition", "helper-jax-definition", "helper-jax-equals-np",
                      "helper-field-definition", "helper-tables-cover-exports", "jax-float64"]
@@ -81,7 +91,15 @@ REQUIRED_REACH = ["hessian-path", "composite-x-tuple", "kwargs-normalised", "fac
                   "jax-prod-3", "np-inv-3x3", "np-inv-2x2", "np-curl-3d", "np-curl-2d-scalar", "np-curl-2d-vector",
                   "np-curl-attr", "np-div-attr", "np-div-trace", "np-div-1d", "point:none", "point:zero",
                   "point:unit", "point:large", "complex-valued-form",
-                  "nonlinear-form-object-reused"]
+                  "nonlinear-form-object-reused", "second-point-same-form-object"]
+REQUIRED_REACH += ["construction:" + c for c in ("plain", "hessian-false", "decorator", "decorator-hessian-false", "form-object",
+                                                 "dtype-keyword", "hessian-true", "decorator-hessian-true",
+                                                 "form-object-hessian-true")]
+REQUIRED_REACH += ["kwargs:pre-interpolated-field", "kwargs:2d-array", "kwargs:dof-array", "kwargs:layout:scalar",
+                   "kwargs:layout:vector", "kwargs:layout:scalar+scalar", "kwargs:layout:vector+scalar", "kwargs:layout:facet"]
+REQUIRED_REACH += ["energy:" + v for v in ("scalar", "vector", "scalar+scalar", "vector+scalar", "hess", "facet")]
+REQUIRED_REACH += ["compositebasis"] + ["helper-dtype:" + v for v in ("complex128", "float32", "int64", "field")]
+REQUIRED_REACH += ["x:" + c for c in ("keyword", "positional", "float32", "int64", "strided", "readonly")]
 
 NMAX = 150          # dense finite differences only up to this many unknowns
 RT_RHS = 1e-11      # relative to the assembled absolute residual density
@@ -215,7 +233,11 @@ def make_basis(ctx, rng, kind, rec, maxcells, facet=None, order2=False, subset=F
         if facet == "boundary":
             basis = skfem.FacetBasis(mesh, rec.make(), **kw)
         elif facet == "interior":
-            basis = skfem.InteriorFacetBasis(mesh, rec.make(), side=int(rng.integers(2)), **kw)
+            side = int(rng.integers(2))
+            if np.any(np.asarray(mesh.f2t)[1] != -1):
+                basis = skfem.InteriorFacetBasis(mesh, rec.make(), side=side, **kw)
+            else:                                   # a cut-down mesh without interior facets: its boundary instead
+                basis = skfem.FacetBasis(mesh, rec.make(), **kw)
         elif subset and nt >= 3:
             els = np.sort(rng.choice(nt, size=max(2, nt // 2), replace=False)).astype(np.int32)
             basis = skfem.CellBasis(mesh, rec.make(), elements=els, **kw)
@@ -252,15 +274,95 @@ def attr_max(basis):
     return m
 
 
+RES_SPELLINGS = ("plain", "hessian-false", "decorator", "decorator-hessian-false", "form-object", "dtype-keyword")
+EN_SPELLINGS = ("hessian-true", "decorator-hessian-true", "form-object-hessian-true")
+X_SPELLINGS = ("keyword", "positional", "float32", "int64", "strided", "readonly")
+
+
+def build_form(fn, energy, sp):
+    """NonlinearForm of `fn` in one of the spellings the constructor offers (all of them denote the same form)."""
+    import skfem
+    from skfem.autodiff import NonlinearForm
+    if energy:
+        name = EN_SPELLINGS[sp % len(EN_SPELLINGS)]
+        if name == "hessian-true":
+            nl = NonlinearForm(fn, hessian=True)
+        elif name == "decorator-hessian-true":
+            @NonlinearForm(hessian=True)
+            def nl(*a):
+                return fn(*a)
+        else:
+            nl = NonlinearForm(NonlinearForm(fn), hessian=True)
+        return name, nl
+    name = RES_SPELLINGS[sp % len(RES_SPELLINGS)]
+    if name == "plain":
+        nl = NonlinearForm(fn)
+    elif name == "hessian-false":
+        nl = NonlinearForm(fn, hessian=False)
+    elif name == "decorator":
+        @NonlinearForm
+        def nl(*a):
+            return fn(*a)
+    elif name == "decorator-hessian-false":
+        @NonlinearForm(hessian=False)
+        def nl(*a):
+            return fn(*a)
+    elif name == "form-object":
+        nl = NonlinearForm(NonlinearForm(fn))
+    else:
+        nl = NonlinearForm(fn, dtype=np.float64, nthreads=0)
+    return name, nl
+
+
+def int_point_ok(prob):
+    """Rounding the linearisation point to integers is admissible unless a term restricts its domain."""
+    return not any(t.positive or t.small for t in prob.terms)
+
+
+def spell_x(x, sp):
+    """(object passed as x, name).  Every spelling carries exactly the float64 values of `x`: float32 / int64 are used
+    only where the values are representable (run_problem rounds the point first)."""
+    how = X_SPELLINGS[sp % len(X_SPELLINGS)]
+    if x is None:
+        return None, how
+    x = np.asarray(x, dtype=np.float64)
+    if how == "float32":
+        x32 = x.astype(np.float32)
+        return (x32, how) if np.array_equal(x32.astype(np.float64), x) else (x, "keyword")
+    if how == "int64":
+        xi = np.rint(x).astype(np.int64)
+        return (xi, how) if np.array_equal(xi.astype(np.float64), x) else (x, "keyword")
+    if how == "strided":
+        big = np.full(2 * x.size + 1, np.nan)
+        big[1::2] = x
+        return big[1::2], how
+    if how == "readonly":
+        xr = x.copy()
+        xr.setflags(write=False)
+        return xr, how
+    return x, how
+
+
+def representable(x, sp, prob, which):
+    """Round the linearisation point so that the x-spelling `sp` can carry it exactly (float32 / integers)."""
+    how = X_SPELLINGS[sp % len(X_SPELLINGS)]
+    if x is None:
+        return x
+    if how == "float32":
+        return x.astype(np.float32).astype(np.float64)
+    if how == "int64" and int_point_ok(prob):
+        return np.rint(2 * x if which == "unit" else x)
+    return x
+
+
 class Problem:
     """One integrand (sum of terms with coefficients) on one basis: the form under judgement + references."""
 
-    def __init__(self, basis, terms, Ps, kwargs, energy=False):
+    def __init__(self, basis, terms, Ps, kwargs, energy=False, spelling=None):
         import skfem
-        from skfem.autodiff import NonlinearForm
         self.basis, self.terms, self.Ps, self.kw, self.energy = basis, terms, Ps, kwargs, energy
         self.n = n = ncomp(basis)
-        self.dim = basis.mesh.dim()
+        self.dim = (basis.mesh if hasattr(basis, "mesh") else basis.bases[0].mesh).dim()
         tp = list(zip(terms, Ps))
 
         if energy:
@@ -269,16 +371,32 @@ class Problem:
                 for t, P in tp:
                     out = out + t.jx(a[:n], a[-1], P)
                 return out
-            self.nl = NonlinearForm(jxform, hessian=True)
         else:
             def jxform(*a):
                 out = 0.
                 for t, P in tp:
                     out = out + t.jx(a[:n], a[n:2 * n], a[-1], P)
                 return out
-            self.nl = NonlinearForm(jxform)
+        # the construction spelling rotates with the case index (spelling=None: the plain one)
+        self.construction, self.nl = build_form(jxform, energy, 0 if spelling is None else spelling)
+        self.xspelling = 0 if spelling is None else (spelling + spelling // len(X_SPELLINGS)) % len(X_SPELLINGS)
         self._tp = tp
         self._skfem = skfem
+
+    def call(self, x, elemental=False, shift=0, ctx=None):
+        """The call under judgement, `x` (float64 reference values or None) passed in the x-spelling of this
+        problem (rotated by `shift`)."""
+        xs, how = spell_x(x, self.xspelling + shift)
+        if ctx is not None:
+            ctx.reached("construction:" + self.construction)
+            if x is not None:
+                ctx.reached("x:" + how)
+        fn = self.nl.elemental if elemental else self.nl.assemble
+        if x is None and how == "positional":
+            return fn(self.basis, None, **self.kw)
+        if how == "positional":
+            return fn(self.basis, xs, **self.kw)
+        return fn(self.basis, x=xs, **self.kw)
 
     def fields(self, x):
         return nfs(as_tuple(self.basis.interpolate(x)))
@@ -376,11 +494,26 @@ def uses_det3(prob):
     return prob.dim == 3 and any(t.det3 for t in prob.terms)
 
 
-def judge(ctx, prob, x, which, tag, fd=True, hand=True):
+def judge(ctx, prob, x, which, tag, fd=True, hand=True, shift=0):
     """All oracles for one assemble() call.  Returns the dense Jacobian (or None)."""
     basis = prob.basis
     N = basis.N
-    J, rhs = prob.nl.assemble(basis, x=x, **prob.kw)
+    try:
+        J, rhs = prob.call(x, shift=shift, ctx=ctx)
+    except TypeError as e:
+        if "hessian-false" not in prob.construction:
+            raise
+        # hessian=False is the residual form.  The mechanism is named only if the very same call succeeds when the
+        # keyword is left out (then the integrand was called as an energy); any other TypeError propagates.
+        from skfem.autodiff import NonlinearForm
+        try:
+            NonlinearForm(prob.nl.form).assemble(basis, x=x, **prob.kw)
+        except TypeError:
+            raise e
+        ctx.check("output-structure", False, mech="hessian-false-keyword-selects-the-energy-path", error=repr(e)[:200],
+                  terms=prob.names(), **tag)
+        return None
+    prob.last = (J, rhs)
     x0 = np.zeros(N) if x is None else x
     names = prob.names()
     import scipy.sparse as sp
@@ -465,7 +598,26 @@ def kwargs_for(rng, basis, terms):
     if any(t.name == "kwargs" for t in terms):
         kw["t"] = float(np.round(rng.uniform(.5, 2), 3))
         kw["k"] = rng.uniform(-1, 1, size=basis.N)
+    for t in terms:
+        if t.kw is not None:
+            for name, val in t.kw(rng, basis).items():
+                kw.setdefault(name, val)      # two terms sharing a name share the value
     return kw
+
+
+def kwargs_reach(ctx, basis, kw, layout):
+    from skfem.element import DiscreteField
+    if not kw:
+        return
+    ctx.reached("kwargs-normalised")
+    for v in kw.values():
+        if isinstance(v, DiscreteField) or (isinstance(v, tuple) and all(isinstance(z, DiscreteField) for z in v)):
+            ctx.reached("kwargs:pre-interpolated-field")
+        elif isinstance(v, np.ndarray) and v.ndim == 2:
+            ctx.reached("kwargs:2d-array")
+        elif isinstance(v, np.ndarray) and v.ndim == 1:
+            ctx.reached("kwargs:dof-array")
+    ctx.reached("kwargs:layout:" + layout)
 
 
 POINTS = ("none", "zero", "unit", "large")
@@ -477,12 +629,17 @@ def run_problem(ctx, rng, k, prob, tag):
     first = POINTS[k % 4]
     second = "unit" if first != "unit" else "large"
     which, x = lin_point(ctx, rng, prob, first)
+    x = representable(x, prob.xspelling, prob, which)
+    tag = dict(tag, construction=prob.construction)
     J1 = judge(ctx, prob, x, which, tag, fd=True)
     which2, x2 = lin_point(ctx, rng, prob, second)
+    x2 = representable(x2, prob.xspelling + 3, prob, which2)
     if ctx.thorough:
-        J2 = judge(ctx, prob, x2, which2, tag, fd=(k % 3 == 0))
+        J2 = judge(ctx, prob, x2, which2, tag, fd=(k % 3 == 0), shift=3)
     else:
         J2 = prob.jac_hand(x2).toarray()
+        if J1 is not None and second_call_in_quick(prob, k):
+            second_point(ctx, prob, x2, which2, J2, tag)
     if J1 is not None and J2 is not None:
         nonlinear = float(np.abs(J1 - J2).max()) > 1e-9 * max(float(np.abs(J1).max()), 1e-300)
         if nonlinear:
@@ -491,6 +648,36 @@ def run_problem(ctx, rng, k, prob, tag):
             ctx.drop("jacobian-did-not-change-between-points")
     ctx.sample(dict(tag, terms=prob.names(), coefficients=prob.Ps, points=[which, which2], N=int(prob.basis.N),
                     Nbfun=int(prob.basis.Nbfun), maxJ=None if J1 is None else float(np.abs(J1).max())))
+
+
+def second_call_in_quick(prob, k):
+    """The autodiff assembly dominates the cost of a case (Nbfun traces + Nbfun^2 JAX evaluations; twice that on the
+    energy path): the quick tier repeats it at the second point for all small local sizes and for every third case of
+    medium size."""
+    nb = prob.basis.Nbfun
+    return nb <= 6 or (k % 3 == 0 and nb <= 9 and not prob.energy)
+
+
+def second_point(ctx, prob, x2, which2, J2h, tag):
+    """Quick tier: the *same form object* once more, at the second linearisation point, through elemental().  A memo
+    of the interpolated point or of the linearisation kept per form object / per basis returns the first answer."""
+    basis = prob.basis
+    names = prob.names()
+    Jc, rc = prob.call(x2, elemental=True, shift=3, ctx=ctx)
+    from skfem.assembly.form.coo_data import COOData
+    ok = isinstance(Jc, COOData) and isinstance(rc, COOData)
+    ctx.check("output-structure", ok, mech="elemental-output-structure", types=[type(Jc).__name__, type(rc).__name__], **tag)
+    if not ok:
+        return
+    F2 = prob.residual(x2)
+    sF = float(prob.residual(x2, absolute=True).max())
+    ctx.close("rhs-is-minus-residual", rc.todefault(), -F2, rtol=RT_RHS, scale=sF, mech="second-point:rhs:" + names,
+              terms=names, point=which2, **tag)
+    if all(t.jac is not None for t in prob.terms):
+        ctx.close("jacobian-vs-hand-linearised", Jc.todefault().toarray(), J2h, rtol=RT_HAND, scale=float(np.abs(J2h).max()),
+                  mech="second-point:jac-hand:" + names, terms=names, point=which2,
+                  worst=lambda: worst_entry(Jc.todefault().toarray(), J2h), **tag)
+    ctx.reached("second-point-same-form-object")
 
 
 _NB = {}
@@ -542,9 +729,8 @@ def fam_residual(layout_group, poolname):
         terms = pick_terms(rng, poolname, layout, dim, rot=k // len(layout_group))
         Ps = [t.coef(rng) for t in terms]
         kw = kwargs_for(rng, basis, terms)
-        if kw:
-            ctx.reached("kwargs-normalised")
-        prob = Problem(basis, terms, Ps, kw)
+        kwargs_reach(ctx, basis, kw, layout)
+        prob = Problem(basis, terms, Ps, kw, spelling=k)
         if prob.n > 1:
             ctx.reached("composite-x-tuple")
         tag = {"layout": layout, "elem": rec.name, "mesh": type(mesh).__name__, "desc": mc.desc,
@@ -553,14 +739,18 @@ def fam_residual(layout_group, poolname):
     return fn
 
 
+ENERGY_LAYOUTS = ["scalar", "vector", "scalar+scalar", "vector+scalar", "hess"]
+
+
 def fam_energy(ctx, k):
     rng = ctx.rng()
-    layout, kind, rec = choose(ctx, k, ["scalar", "vector", "scalar+scalar"], ctx.scale(12, 30))
+    layout, kind, rec = choose(ctx, k, ENERGY_LAYOUTS, ctx.scale(12, 30))
     nb_guess = {"line": 6, "tri": 8, "quad": 6, "tet": 5, "hex": 2, "wedge": 3}[kind]
     mc, mesh, basis = make_basis(ctx, rng, kind, rec, ctx.scale(nb_guess, 3 * nb_guess), order2=(k % 6 == 5))
-    terms = pick_terms(rng, "energy", layout, mesh.dim(), kmax=2, energy=True, rot=k // 3)
-    prob = Problem(basis, terms, [t.coef(rng) for t in terms], {}, energy=True)
+    terms = pick_terms(rng, "energy", layout, mesh.dim(), kmax=ctx.scale(1, 2), energy=True, rot=k // len(ENERGY_LAYOUTS))
+    prob = Problem(basis, terms, [t.coef(rng) for t in terms], {}, energy=True, spelling=k)
     ctx.reached("hessian-path")
+    ctx.reached("energy:" + layout)
     if prob.n > 1:
         ctx.reached("composite-x-tuple")
     tag = {"layout": "energy:" + layout, "elem": rec.name, "mesh": type(mesh).__name__, "desc": mc.desc,
@@ -576,11 +766,77 @@ def fam_facet(ctx, k):
     mc, mesh, basis = make_basis(ctx, rng, kind, rec, ctx.scale(6, 16), facet=facet)
     if basis.nelems == 0:
         raise Skip("no-facets")
-    terms = pick_terms(rng, "facet", layout, mesh.dim(), kmax=1, rot=k // 2)
-    prob = Problem(basis, terms, [t.coef(rng) for t in terms], {})
+    energy = (k % 4 == 3)                  # boundary / interface energies (hessian=True) on facet bases
+    terms = pick_terms(rng, "facet-energy" if energy else "facet", layout, mesh.dim(), kmax=1, rot=k // 2, energy=energy)
+    Ps = [t.coef(rng) for t in terms]
+    kw = kwargs_for(rng, basis, terms)
+    kwargs_reach(ctx, basis, kw, "facet")
+    prob = Problem(basis, terms, Ps, kw, energy=energy, spelling=k)
+    if energy:
+        ctx.reached("hessian-path")
+        ctx.reached("energy:facet")
     tag = {"layout": "facet:" + layout, "elem": rec.name, "mesh": type(mesh).__name__, "desc": mc.desc,
            "basis": type(basis).__name__}
     run_problem(ctx, rng, k, prob, tag)
+
+
+def fam_compositebasis(ctx, k):
+    """CompositeBasis (b0 * b1 of component bases sharing cells and quadrature) as the basis of a NonlinearForm:
+    every oracle of judge() on the CompositeBasis itself (ordinary Linear/BilinearForm assembly accepts it too), and
+    the result equals the one on the basis of the ElementComposite up to the documented DOF order
+    (np.concatenate(split_indices()))."""
+    import skfem
+    rng = ctx.rng()
+    layout, kind, rec = choose(ctx, k, ["scalar+scalar", "vector+scalar", "scalar+scalar+scalar"], ctx.scale(11, 24))
+    nb_guess = {"line": 6, "tri": 6, "quad": 4, "tet": 4, "hex": 2, "wedge": 3}[kind]
+    mc, mesh, eb = make_basis(ctx, rng, kind, rec, ctx.scale(nb_guess, 3 * nb_guess), order2=(k % 4 == 3))
+    sb = eb.split_bases()                       # with_element: same cells, same quadrature
+    if k % 2 == 0 and len(sb) == 2:
+        cb, spelled = sb[0] * sb[1], "b0 * b1"
+    else:
+        from skfem.assembly.basis.composite_basis import CompositeBasis
+        cb, spelled = CompositeBasis(*sb), "CompositeBasis(*bases)"
+    terms = [t for t in pick_terms(rng, "composite", layout, mesh.dim(), kmax=ctx.scale(1, 3), rot=k // 3) if not t.positive]
+    if not terms:
+        raise Skip("only-positive-terms")
+    Ps = [t.coef(rng) for t in terms]
+    kw = kwargs_for(rng, cb, terms)
+    kwargs_reach(ctx, cb, kw, "compositebasis")
+    prob = Problem(cb, terms, Ps, kw, spelling=k)
+    tag = {"layout": "compositebasis:" + layout, "elem": rec.name, "mesh": type(mesh).__name__, "desc": mc.desc,
+           "basis": spelled, "construction": prob.construction}
+    N = cb.N
+    ctx.check("output-structure", N == eb.N and cb.Nbfun == eb.Nbfun, mech="compositebasis-size", N=int(N), want=int(eb.N), **tag)
+    which, x = lin_point(ctx, rng, prob, ("unit", "large")[k % 2])
+    x = representable(x, prob.xspelling, prob, which)
+    Jd = judge(ctx, prob, x, which, tag, fd=True)
+    if Jd is None:
+        return
+    # the same form object on the basis of the composite element
+    perm = np.concatenate(eb.split_indices())
+    xe = np.zeros(N)
+    xe[perm] = x
+    kwe = {}
+    for name, v in kw.items():
+        if type(v) is np.ndarray and v.ndim == 1:
+            kwe[name] = np.zeros(N)
+            kwe[name][perm] = v
+        else:
+            kwe[name] = v
+    Je, re_ = prob.nl.assemble(eb, x=xe, **kwe)
+    Je = Je.toarray()
+    rcb = prob.last[1]
+    ctx.close("compositebasis-equals-composite-element", Jd, Je[np.ix_(perm, perm)], rtol=1e-11,
+              scale=float(np.abs(Je).max()) + 1e-300, mech="compositebasis-vs-elementcomposite:jacobian", terms=prob.names(), **tag)
+    sF = float(prob.residual(x, absolute=True).max()) + 1e-300
+    ctx.close("compositebasis-equals-composite-element", rcb, re_[perm], rtol=1e-11, scale=sF,
+              mech="compositebasis-vs-elementcomposite:rhs", terms=prob.names(), **tag)
+    ctx.reached("compositebasis")
+    x2 = lin_point(ctx, rng, prob, "zero")[1]
+    J0 = prob.jac_hand(x2).toarray()
+    if float(np.abs(Jd - J0).max()) > 1e-9 * max(float(np.abs(Jd).max()), 1e-300):
+        ctx.nontrivial("compositebasis", layout, prob.names(), type(mesh).__name__)
+    ctx.sample(dict(tag, terms=prob.names(), N=int(N)), per_family=1)
 
 
 LINEAR_LAYOUTS = ["scalar", "vector", "vector+scalar", "hdiv+p0", "hcurl+scalar", "hess"]
@@ -595,18 +851,20 @@ def fam_linear(ctx, k):
     mc, mesh, basis = make_basis(ctx, rng, kind, rec, ctx.scale(nb_guess, 3 * nb_guess), order2=(k % 6 == 5))
     poolname = "hess" if layout == "hess" else ("composite" if "+" in layout else layout)
     terms = pick_terms(rng, poolname, layout, mesh.dim(), kmax=3, only_linear=True)
-    prob = Problem(basis, terms, [t.coef(rng) for t in terms], {})
+    prob = Problem(basis, terms, [t.coef(rng) for t in terms], {}, spelling=k)
     names = prob.names()
-    tag = {"layout": "linear:" + layout, "elem": rec.name, "mesh": type(mesh).__name__, "desc": mc.desc}
+    tag = {"layout": "linear:" + layout, "elem": rec.name, "mesh": type(mesh).__name__, "desc": mc.desc,
+           "construction": prob.construction}
     N = basis.N
     A = prob.jac_hand(np.zeros(N))          # ordinary BilinearForm assembly (independent of the point)
     b = -prob.residual(np.zeros(N))         # ordinary LinearForm assembly of the load
     sA = float(np.abs(A).max())
     Aabs = abs(A)
-    for which in (("none", "unit", "large") if ctx.thorough else (("none", "unit")[k % 2], "large")):
+    for ip, which in enumerate(("none", "unit", "large") if ctx.thorough else (("none", "unit")[k % 2], "large")):
         which, x = lin_point(ctx, rng, prob, which)
+        x = representable(x, prob.xspelling + ip, prob, which)
         x0 = np.zeros(N) if x is None else x
-        J, rhs = prob.nl.assemble(basis, x=x)
+        J, rhs = prob.call(x, shift=ip, ctx=ctx)
         ctx.close("linear-reduces-to-ordinary-assembly", J.toarray(), A.toarray(), rtol=RT_LIN, scale=sA,
                   mech="linear-matrix:" + names, terms=names, point=which, **tag)
         sb = float((Aabs @ np.abs(x0)).max() + np.abs(b).max())
@@ -802,7 +1060,8 @@ def fam_reuse(ctx, k):
 
 
 # ===================================================================== Part B: helpers
-from .c20_helpers import fam_helpers_np, fam_helpers_jax, fam_helpers_fields, fam_helper_exports, fam_edge  # noqa: E402
+from .c20_helpers import (fam_helpers_np, fam_helpers_jax, fam_helpers_fields, fam_helper_exports, fam_edge,  # noqa: E402
+                          fam_helper_dtypes)
 
 SCALAR_GROUP = ["scalar"]
 VECTOR_GROUP = ["vector"]
@@ -814,7 +1073,8 @@ FAMILIES = [
     Family("nl-composite", fam_residual(COMPOSITE_GROUP, "composite"), quick=10, thorough=160,
            budget={"quick": 40, "thorough": 500}),
     Family("nl-hess", fam_residual(["hess"], "hess"), quick=2, thorough=32, budget={"quick": 20, "thorough": 400}),
-    Family("nl-energy", fam_energy, quick=8, thorough=128, budget={"quick": 30, "thorough": 500}),
+    Family("nl-compositebasis", fam_compositebasis, quick=3, thorough=48, budget={"quick": 20, "thorough": 400}),
+    Family("nl-energy", fam_energy, quick=7, thorough=140, budget={"quick": 30, "thorough": 500}),
     Family("nl-facet", fam_facet, quick=6, thorough=96, budget={"quick": 20, "thorough": 400}),
     Family("nl-linear", fam_linear, quick=8, thorough=128, budget={"quick": 20, "thorough": 400}),
     Family("nl-reuse", fam_reuse, quick=8, thorough=160, budget={"quick": 30, "thorough": 400}),
@@ -823,6 +1083,7 @@ FAMILIES = [
     Family("helpers-np", fam_helpers_np, quick=16, thorough=960, budget={"quick": 15, "thorough": 200}),
     Family("helpers-jax", fam_helpers_jax, quick=16, thorough=960, budget={"quick": 25, "thorough": 300}),
     Family("helpers-fields", fam_helpers_fields, quick=12, thorough=384, budget={"quick": 15, "thorough": 200}),
+    Family("helpers-dtypes", fam_helper_dtypes, quick=4, thorough=256, budget={"quick": 15, "thorough": 200}),
     Family("helper-exports", fam_helper_exports, quick=1, thorough=1),
     Family("helpers-edge", fam_edge, quick=4, thorough=16, budget={"quick": 15, "thorough": 60}),
 ]
